@@ -253,7 +253,7 @@ func runC09(t *Tape, st *Stats, tier string) *RunResult {
 	fired := countRevStats(sc, obs, st)
 	rc.anteTrue("C09.R1")
 	for _, co := range obs.Calls {
-		if co.Panicked && !(sc.PanicAt != "" && co.PanicVal == obs.PanicToken) {
+		if co.Panicked && !(sc.PanicAt != "" && isInjectedPanic(co.PanicVal, obs.PanicToken)) {
 			rc.fail("C09.R1", panicSig(co.PanicVal), fmt.Sprintf("caller %d.%d via %s: panic reached the caller: %v", co.World.ID, co.Rep, entryNames[co.World.Entry], co.PanicVal))
 		}
 	}
@@ -286,7 +286,7 @@ func runC09Timestamp(t *Tape, st *Stats) *RunResult {
 	desc := fmt.Sprintf("timestamped Sign: tsa=%s fault=%s chain_defect=%s", tsaBehaviourNames[sc.Behaviour], sc.Fault, tsaDefectNames[sc.Rev.Worlds[0].TSADefect])
 	rc.anteTrue("C09.R1")
 	st.Probes["c09_surface_timestamped_sign"]++
-	if obs.Panicked {
+	if obs.Panicked && !(sc.RevMode == RevStub && sc.StubPanic != 0 && obs.Stub != nil && obs.Stub.calls > 0) {
 		rc.fail("C09.R1", "sign/"+panicSig(obs.PanicVal), fmt.Sprintf("%s: panic reached the caller: %v", desc, obs.PanicVal))
 	}
 	rc.anteTrue("C09.R3")
@@ -397,6 +397,7 @@ func profC17() *RevProfile {
 	p.Schedules = 4
 	p.LatMax = 400
 	p.MaxCallers = 8
+	p.StaggerPct = 35
 	// schedules, not key types, are the subject: mostly the fast P-256 (signing
 	// dominates the cost of a bubble), the other kinds stay in the mix
 	p.KeyW = []int{88, 4, 4, 2, 2}
@@ -445,6 +446,17 @@ func runC17(t *Tape, st *Stats, tier string) *RunResult {
 		// R3: nothing left behind
 		sc.evalLiveness(rc, obs, "C17.R3", "")
 		// R4: panic routing
+		if sc.PanicAt == "transport" {
+			kinds := map[int]bool{}
+			for _, x := range obs.Net.All() {
+				if x.Fault.Kind == FPanic && x.Rec.Outcome == "panic" {
+					kinds[x.Fault.Param%3] = true
+				}
+			}
+			if len(kinds) > 1 {
+				st.Probes["panics_of_several_value_types_in_one_check"]++
+			}
+		}
 		for _, co := range obs.Calls {
 			expectPanic := sc.PanicAt != "" && sc.panicReaches(obs, co)
 			if expectPanic {
@@ -452,11 +464,52 @@ func runC17(t *Tape, st *Stats, tier string) *RunResult {
 				st.Probes["panic_injected_"+sc.PanicAt]++
 				if !co.Panicked {
 					rc.fail("C17.R4", "panic_lost/"+sc.PanicAt+"/"+entryNames[co.World.Entry], fmt.Sprintf("caller %d.%d via %s: a panic was raised inside a per-certificate check (%s) but the call returned normally", co.World.ID, co.Rep, entryNames[co.World.Entry], sc.PanicAt))
-				} else if co.PanicVal != obs.PanicToken {
+				} else if !isInjectedPanic(co.PanicVal, obs.PanicToken) {
 					rc.fail("C17.R4", "panic_value_changed/"+sc.PanicAt, fmt.Sprintf("caller %d.%d: recovered %v instead of the injected panic value", co.World.ID, co.Rep, co.PanicVal))
 				}
 			} else if co.Panicked {
 				rc.fail("C17.R4", "unexpected_panic/"+panicSig(co.PanicVal), fmt.Sprintf("caller %d.%d via %s: unexpected panic %v", co.World.ID, co.Rep, entryNames[co.World.Entry], co.PanicVal))
+			}
+		}
+		// R5 (c): a check fails for reasons of its own, never because of what
+		// happened to another caller: a Fetch of a plain-HTTP location that
+		// failed although this caller's context was live, its cache calls did
+		// not fail and NOT ONE request of this caller went out to the location
+		// was refused on the strength of somebody else's experience
+		if sc.Cancel == CancelNone && sc.PanicAt == "" && sc.Fetcher != FetchStub && len(obs.Calls) > 1 {
+			normal := map[string]bool{}
+			for _, w := range sc.Worlds {
+				for _, cp := range w.Certs {
+					for _, s := range cp.CRL {
+						if s.URLKind == UNormal {
+							normal[s.URL] = true
+						}
+					}
+				}
+			}
+			var cops []CacheOp
+			if obs.Cache != nil {
+				cops = obs.Cache.AllOps()
+			}
+			for _, f := range obs.Fetches {
+				if !f.Done || f.Err == "" || !normal[f.URL] {
+					continue
+				}
+				rc.anteTrue("C17.R5")
+				asked, cacheFailed := false, false
+				for _, x := range obs.Net.All() {
+					if x.Rec.Begun && x.Rec.CallerID == f.Caller && x.URL == f.URL && !x.Rec.TBegin.Before(f.TBegin) && !x.Rec.TBegin.After(f.TEnd) {
+						asked = true
+					}
+				}
+				for _, o := range cops {
+					if o.Caller == f.Caller && o.Outcome == "error" && !o.T.Before(f.TBegin) && !o.T.After(f.TEnd) {
+						cacheFailed = true
+					}
+				}
+				if !asked && !cacheFailed {
+					rc.fail("C17.R5", "fetch_refused_without_request", fmt.Sprintf("caller %d: Fetch(%s) failed at %s (%s) although this caller's context was live, its cache calls did not fail and it sent no request to the location at all", f.Caller, f.URL, rel(f.TEnd), firstLine(f.Err)))
+				}
 			}
 		}
 		// R1: schedule independence
